@@ -313,7 +313,7 @@ func (e *ev) evalString(s map[string]any, x string, path string) (string, string
 		if ps, ok := p.(string); ok && ps != "" {
 			re := reCache[ps]
 			if re == nil {
-				re = regexp.MustCompile(ps)
+				re = regexp.MustCompile(goPattern(ps))
 				reCache[ps] = re
 			}
 			if !re.MatchString(x) {
@@ -322,6 +322,40 @@ func (e *ev) evalString(s map[string]any, x string, path string) (string, string
 		}
 	}
 	return "", ""
+}
+
+// goPattern rewrites the ECMA-262 escape \uXXXX, which Go's regexp syntax lacks, as \x{XXXX}. It scans
+// escape by escape, so an escaped backslash in front of "uXXXX" is left alone.
+func goPattern(p string) string {
+	var b []byte
+	for i := 0; i < len(p); i++ {
+		if p[i] != '\\' || i+1 >= len(p) {
+			b = append(b, p[i])
+			continue
+		}
+		if p[i+1] == 'u' && i+5 < len(p) && isHex4(p[i+2:i+6]) {
+			b = append(b, '\\', 'x', '{')
+			b = append(b, p[i+2:i+6]...)
+			b = append(b, '}')
+			i += 5
+			continue
+		}
+		b = append(b, p[i], p[i+1])
+		i++
+	}
+	return string(b)
+}
+
+func isHex4(s string) bool {
+	if len(s) != 4 {
+		return false
+	}
+	for _, c := range []byte(s) {
+		if !(c >= '0' && c <= '9' || c >= 'a' && c <= 'f' || c >= 'A' && c <= 'F') {
+			return false
+		}
+	}
+	return true
 }
 
 func (e *ev) evalArray(s map[string]any, x []any, path string) (string, string) {
